@@ -6,12 +6,17 @@ out = tempfile.mktemp(suffix=".xml", dir="/dev/shm")
 env = dict(os.environ); env.pop("GRAPHIQ_VERIF", None)
 r = subprocess.run("cd /repo && /venv/bin/python -m pytest -ra -q -p no:cacheprovider --timeout=900 --continue-on-collection-errors --junitxml=%s" % out, shell=True, env=env, capture_output=True, text=True)
 passed = set()
+why = {}
 for tc in ET.parse(out).getroot().iter("testcase"):
-    if not any(ch.tag in ("failure", "error", "skipped") for ch in tc):
-        passed.add("%s::%s" % (tc.get("classname"), tc.get("name")))
+    key = "%s::%s" % (tc.get("classname"), tc.get("name"))
+    bad = [ch for ch in tc if ch.tag in ("failure", "error", "skipped")]
+    if not bad:
+        passed.add(key)
+    else:
+        why[key] = "%s %.1fs %s" % (bad[0].tag, float(tc.get("time") or 0), (bad[0].get("message") or "")[:160].replace("\n", " "))
 os.remove(out)
 want = set(base["stable_pass"])
 missing = sorted(want - passed)
 print("baseline stable_pass: %d, passing now: %d, missing: %d" % (len(want), len(want & passed), len(missing)))
-for m in missing[:40]: print("  MISSING", m)
+for m in missing[:40]: print("  MISSING", m, "|", why.get(m, "not run"))
 sys.exit(1 if missing else 0)
